@@ -72,7 +72,8 @@ def case_st(draw):
     for s in ast:
         parts.append(s[1] if s[0] == 'lit' else _val(draw, s))
     sibs = [draw(R.derived_rule_st(ast)) for _ in range(draw(st.sampled_from([0, 0, 1, 2])))]
-    return {'ast': ast, 'choice': draw(st.lists(st.integers(0, 30), max_size=3)), 'spell': draw(st.integers(0, 1)), 'path': ''.join(parts), 'siblings': sibs}
+    return {'ast': ast, 'choice': draw(st.lists(st.integers(0, 30), max_size=3)), 'spell': draw(st.integers(0, 1)), 'path': ''.join(parts), 'siblings': sibs,
+            'lead': draw(st.sampled_from([0, 0, 0, 1, 2, 3])), 'trail': draw(st.sampled_from([0, 0, 0, 1, 2, 3]))}
 
 
 def _exp_float(v):
@@ -116,6 +117,8 @@ def check_case(ctx, case, witness=False):
         return
     path = case['path']
     sp = path.strip('/')
+    # (leading / trailing slashes are not part of what a rule matches, however many there are)
+    path = '/' * case.get('lead', 0) + path + '/' * case.get('trail', 0)
     b = R.match(ast, sp, True)
     if b is None:
         # the reference sees no match. Should the ROUTER nevertheless match the path (C01 judges that), the assignment it produced must
@@ -353,6 +356,13 @@ def run(ctx):
                 for spell in (0, 1):
                     ctx.guarded(check_case, {'ast': R._fix(second), 'choice': [1], 'spell': spell, 'path': pth, 'siblings': [R._fix(first)]})
         ctx.count('sibling_rule_grid')
+        # extra slashes at the very start / end of the request path, for rules that begin / end with a wildcard that can hold a slash
+        for ast, pth in (([lit('/files/'), W('p', 'path')], '/files/a/b'), ([lit('/'), W('p', 'path'), lit('/raw')], '/a/b/raw'), ([lit('/'), W('p', 're', '.+')], '/a/b'),
+                         ([lit('/'), W('x'), lit('/'), W('p', 'path')], '/x/a'), ([lit('/f/'), W('n', 'int')], '/f/7')):
+            for lead in (0, 1, 2, 3):
+                for trail in (0, 1, 2, 3):
+                    ctx.guarded(check_case, {'ast': R._fix(ast), 'choice': [1], 'spell': 0, 'path': pth, 'lead': lead, 'trail': trail})
+        ctx.count('edge_slash_grid')
         for ast, paths in (([lit('/left-'), ['w', 'x', 'float', None]], ['/left-2.5', '/left-7']),
                            ([lit('/p/'), ['w', 'p', 'path', None], lit('/end/'), ['w', None, 'int', None]], ['/p/a/b/end/12', '/p/x/end/7']),
                            ([lit('/'), ['w', 'a', None, None], lit('/'), ['w', 'b', 're', '[a-c]+'], lit('.html')], ['/tom/abc.html', '/é/a.html'])):
